@@ -603,6 +603,54 @@ def random_records(rep, rng, nrec):
     return recs
 
 
+def large_nk_records(rep, rng, thorough):
+    """uniform sampling for EVERY segment size up to a bound, not only the handful of sizes TLC enumerates / the random records
+    draw: one from_nodes record per nk (alternating int / list mode, seeded nodes, node denominators and lattices) and a few
+    dk / length records that imply long segments.  The records are decided by TLC (PathSpecRec) like all the others."""
+    recs = []
+    mats = list(LATS.values()) + [((1, 0, 0), (0, 1, 0), (0, 0, 1)), ((2, 1, 0), (0, 1, 0), (1, 0, 1))]
+    top = 640 if thorough else 200
+    sizes = [("nk", n) for n in range(7, top + 1)]
+    sizes += [("inv", iv) for iv in ([37, 1], [64, 3], [101, 2], [55, 1], [89, 2]) + (([233, 3], [150, 1], [301, 2]) if thorough else ())]
+    for kind, val in sizes:
+        for _ in range(20):
+            nd = rng.choice([1, 2, 4])
+            a = tuple(rng.randint(-2, 2) for _ in range(3))
+            b = tuple(rng.randint(-2, 2) for _ in range(3))
+            c = tuple(rng.randint(-2, 2) for _ in range(3))
+            if a == b or b == c:
+                continue
+            A = [list(x) for x in rng.choice(mats)]
+            if kind == "nk":
+                if val % 2:
+                    nodes, labels, spec = [a, b], ["G", "X"], dict(mode="int", nk=[val], inv=[0, 1], A=A)
+                else:
+                    nodes, labels, spec = [a, b, c], ["G", "X", "M"], dict(mode="list", nk=[val, rng.randint(2, 4)][::rng.choice([1, -1])], inv=[0, 1], A=A)
+            else:
+                nodes, labels, spec = [a, b], ["G", "X"], dict(mode=rng.choice(["dk", "length"]), nk=[], inv=list(val), A=A)
+                if tie(nodes, spec):
+                    continue
+            break
+        else:
+            raise MachineryError(f"large_nk_records: no admissible node pair for {kind} {val}")
+        route = rng.choice(ROUTES)
+        detail = dict(nodes=[list(x) for x in nodes], node_denominator=nd, labels=labels, spec=spec, lattice_given_as=route)
+        ok, path = U.guarded(rep, "from_nodes", detail, make_from_nodes, nodes, labels, spec, nd, route, rng)
+        if not ok:
+            continue
+        unit = 2 * np.pi if spec["mode"] == "length" else 1.0
+        rec = node_record(rep, path, nodes, labels, False, spec, nd, unit, route, detail, "from_nodes")
+        if rec is None:
+            continue
+        recs.append(rec)
+        rep.case(("rec_nodes_long", kind, tuple(val) if kind == "inv" else val))
+    if not rep.violations and len(recs) < len(sizes):
+        raise MachineryError(f"large_nk_records: {len(recs)} records for {len(sizes)} segment sizes")
+    rep.part("long_segments", records=len(recs), nk_every_value_up_to=top, dk_length_cases=sum(1 for k, _ in sizes if k == "inv"),
+             longest_path=max((len(r["out"]["K"]) for r in recs), default=0))
+    return recs
+
+
 def last_resort_batches(recs, K, kb):
     """get_K_list / the K-point attribute is not callable the harness's way any more: keep the record kinds non-empty with
     the specification's own batches (marked, they bind nothing) so that the other kinds are still validated"""
@@ -750,7 +798,7 @@ def _check(rep, scr, tier):
     _t("numeric")
 
     # ---------------- code -> spec : recorded calls validated by TLC
-    recs = random_records(rep, rng, 2500 if thorough else 240) + late_recs
+    recs = random_records(rep, rng, 2500 if thorough else 240) + late_recs + large_nk_records(rep, rng, thorough)
     kinds = {}
     for r in recs:
         kinds[r["fn"]] = kinds.get(r["fn"], 0) + 1
